@@ -148,4 +148,100 @@ class E1Sound(Component):
         ctx.label("E1-sound:%s:%s" % (m, op))
 
 
-COMPONENTS = [Random(), E1Sound()]
+def dense_rows(universe, maxk):
+    import itertools
+    rows = []
+    for k in range(0, maxk + 1):
+        for c in itertools.combinations(range(universe), k):
+            rows.append(c)
+    return rows
+
+
+class Dense(Component):
+    """Dense candidate tables: both tables hold every subset (size <= k) of a U-token universe
+    plus one hub token, so every left row is a candidate of every right row, token ranks reach
+    two digits, and one join verifies thousands of (left, right) combinations with many equal
+    sizes and overlapping token sets.  Every output row is checked (membership and score) and
+    every required pair must be present."""
+    name = "dense"
+    kind = "enum"
+    exhaustive = True
+    rule = "every (measure, threshold, operator) over the all-subsets tables"
+
+    def bounds(self, tier):
+        return {"universe": 13 if tier == "quick" else 15, "max_subset": 2 if tier == "quick" else 3,
+                "measures": gen.SET_JOIN_MEASURES}
+
+    def shards(self, tier):
+        return 16
+
+    def budget_s(self, tier):
+        return 200 if tier == "quick" else 3000
+
+    def cases(self, tier):
+        b = self.bounds(tier)
+        for m in b["measures"]:
+            ts = [1, 2, 3] if m == "OVERLAP" else [0.05, 1.0 / 3, 0.5, 0.6667, 1.0]
+            for t in ts:
+                for op in (">=", ">", "="):
+                    for nj in (1, 3):
+                        yield {"measure": m, "threshold": t, "op": op, "n_jobs": nj,
+                               "universe": b["universe"], "max_subset": b["max_subset"]}
+
+    def check(self, case, ctx):
+        import pandas as pd
+        U, K = case["universe"], case["max_subset"]
+        subsets = dense_rows(U, K)
+        names = [chr(ord("a") + i) for i in range(U)]
+        vals = [" ".join([names[i] for i in c] + ["zhub"]) for c in subsets]
+        n = len(vals)
+        L = pd.DataFrame({"id": list(range(n)), "v": pd.Series(vals, dtype=object)})
+        R = pd.DataFrame({"id": list(range(1000, 1000 + n)), "v": pd.Series(vals, dtype=object)})
+        m, t, op = case["measure"], case["threshold"], case["op"]
+        tok = mk_tok({"kind": "ws", "return_set": True})
+        with calls.backend(case["n_jobs"]):
+            if m == "OVERLAP":
+                df = ctx.lib(JOINS[m], L, R, "id", "id", "v", "v", tok, t, op, False, None, None,
+                             "l_", "r_", True, case["n_jobs"], False)
+            else:
+                df = ctx.lib(JOINS[m], L, R, "id", "id", "v", "v", tok, t, op, True, False, None,
+                             None, "l_", "r_", True, case["n_jobs"], False)
+        if df is None:
+            return
+        sets = [frozenset(c) for c in subsets]
+        got = {}
+        for i, j, sc in zip(df["l_id"].tolist(), df["r_id"].tolist(), df["_sim_score"].tolist()):
+            if (i, j) in got:
+                ctx.violation("join=%s,kind=duplicate-pair" % m,
+                              "%s_join on the dense tables returned (%r, %r) twice"
+                              % (m.lower(), i, j))
+            got[(i, j)] = sc
+        for i in range(n):
+            for j in range(n):
+                a, b = len(sets[i]) + 1, len(sets[j]) + 1
+                o = len(sets[i] & sets[j]) + 1
+                cl = oracle.classify(m, a, b, o, t, op)
+                k = (i, 1000 + j)
+                if k in got:
+                    if cl == "no":
+                        ctx.violation("join=%s,kind=non-qualifying-pair-returned" % m,
+                                      "%s_join threshold=%r op=%s n_jobs=%d on the dense tables "
+                                      "returned (%r, %r) with sizes/overlap %r"
+                                      % (m.lower(), t, op, case["n_jobs"], vals[i], vals[j],
+                                         (a, b, o)))
+                    if not oracle.score_ok(m, a, b, o, got[k]):
+                        ctx.violation("join=%s,kind=wrong-score" % m,
+                                      "%s_join threshold=%r on the dense tables: pair (%r, %r) "
+                                      "sizes/overlap %r has _sim_score %r, true similarity %r"
+                                      % (m.lower(), t, vals[i], vals[j], (a, b, o), got[k],
+                                         oracle.sim_values(m, a, b, o)))
+                elif cl == "must":
+                    ctx.violation("join=%s,kind=qualifying-pair-missing" % m,
+                                  "%s_join threshold=%r op=%s on the dense tables does not "
+                                  "return (%r, %r) with sizes/overlap %r"
+                                  % (m.lower(), t, op, vals[i], vals[j], (a, b, o)))
+        ctx.nontrivial(len(got) > 0 and len(got) < n * n)
+        ctx.label("dense:%s" % m)
+
+
+COMPONENTS = [Random(), E1Sound(), Dense()]
